@@ -125,9 +125,11 @@ package config
 //@   trusted
 //@   pure
 
-// A rejected update changes nothing: no committed value, no notification.
+// A rejected update changes nothing: no committed value, no notification; and only a
+// configuration that passed verify() is ever written to the configuration file.
 //@ props C18
 //@ func UpdatePartialFromConfig
+//@   ghost callsite-requires [C18] persist specWorkableCache(cfg.Cache)
 //@   requires cfg != nil && specCacheSet(cfg.Cache) && aset(cfg.Proxy.Listen.value) && aset(cfg.Proxy.CaCert.value) && aset(cfg.Proxy.CaKey.value) && aset(cfg.Webserver.Listen.value)
 //@   ensures [C18] result1 != nil ==> unchanged("atomicValue") && (forall f int :: gocalls(f) == old(gocalls(f)))
 //@   loop 1 invariant cfg != nil && specCacheSet(cfg.Cache) && aset(cfg.Proxy.Listen.value) && aset(cfg.Proxy.CaCert.value) && aset(cfg.Proxy.CaKey.value) && aset(cfg.Webserver.Listen.value)
